@@ -97,37 +97,32 @@ _LIST_VALUES = {
 def iter_atomic_values(xsd_type: XsdTypeProtocol) -> Iterator[aliases.AtomicType]:
     """Generates a list of XSD atomic values related to provided XSD type."""
 
-    def _iter_values(root_type: XsdTypeProtocol, depth: int) -> Iterator[aliases.AtomicType]:
-        if depth > 15:
+    def _iter_values(type_: Any, depth: int) -> Iterator[aliases.AtomicType]:
+        # Descends to the nearest built-in types from which the type is derived:
+        # the item type for a list, the member types for a union, the base type
+        # for a restriction (if the XSD processor exposes them).
+        if type_ is None or depth > 15:
             return
-        if root_type.name in atomic_values:
-            yield atomic_values[root_type.name]
-        elif hasattr(root_type, 'member_types'):
-            for member_type in root_type.member_types:
+        elif type_.name in atomic_values:
+            yield atomic_values[type_.name]
+        elif (item_type := getattr(type_, 'item_type', None)) is not None:
+            yield from _iter_values(item_type, depth + 1)
+        elif getattr(type_, 'member_types', None):
+            for member_type in type_.member_types:
                 yield from _iter_values(member_type, depth + 1)
-
-    def _builtin_ancestor(type_: Any) -> Any:
-        # The nearest built-in type from which the type is derived by restriction
-        # (for a list the one of its items), if the XSD processor exposes base types.
-        if type_.is_simple() and type_.is_list():
-            type_ = getattr(type_, 'item_type', None)
-        for _ in range(16):
-            if type_ is None or type_.name in atomic_values:
-                return type_
-            type_ = getattr(type_, 'base_type', None)
-        return None
+        elif (base_type := getattr(type_, 'base_type', None)) is not None \
+                and base_type is not type_:
+            yield from _iter_values(base_type, depth + 1)
+        elif type_.root_type is not type_:
+            yield from _iter_values(type_.root_type, depth + 1)
 
     atomic_values = _ATOMIC_VALUES[xsd_type.xsd_version]
     if xsd_type.name in atomic_values:
         yield atomic_values[xsd_type.name]
-    elif xsd_type.is_simple() and (ancestor := _builtin_ancestor(xsd_type)) is not None:
-        yield atomic_values[ancestor.name]
     elif xsd_type.is_simple() or (simple_type := xsd_type.simple_type) is None:
-        yield from _iter_values(xsd_type.root_type, 1)
-    elif simple_type.name in atomic_values:
-        yield atomic_values[simple_type.name]
+        yield from _iter_values(xsd_type, 1)
     else:
-        yield from _iter_values(simple_type.root_type, 1)
+        yield from _iter_values(simple_type, 1)
 
 
 def get_atomic_sequence(xsd_type: Optional[XsdTypeProtocol],
@@ -158,32 +153,37 @@ def get_atomic_sequence(xsd_type: Optional[XsdTypeProtocol],
         error: Union[None, ValueError, ArithmeticError] = None
         code = 'FORG0001'
 
-        for value in iter_atomic_values(xsd_type):
-            try:
-                if xsd_type.is_list():
-                    for item in text.split():
-                        yield decode(item)
-                else:
-                    yield decode(text)
-            except (ArithmeticError, ValueError) as err:
-                if error is None:
-                    error = err
-                    if isinstance(err, ArithmeticError):
-                        if isinstance(value, dt.AbstractDateTime):
-                            code = 'FODT0001'
-                        elif isinstance(value, dt.Duration):
-                            code = 'FODT0002'
-                        else:
-                            code = 'FOCA0002'
-            else:
-                return
-        else:
-            if error is not None:
-                raise xpath_error(code, error, namespaces=namespaces)
-            elif hasattr(xsd_type, 'decode'):
+        values = list(iter_atomic_values(xsd_type))
+        if not values:
+            if hasattr(xsd_type, 'decode'):
                 yield xsd_type.decode(text or '')
             else:
                 yield dt.UntypedAtomic(text if isinstance(text, str) else '')
+            return
+
+        # Each item of a list is decoded on its own, with the first of the
+        # alternative types (the members of a union) that accepts it.
+        for item in (text.split() if xsd_type.is_list() else [text]):
+            for value in values:
+                try:
+                    result = decode(item)
+                except (ArithmeticError, ValueError) as err:
+                    if error is None:
+                        error = err
+                        if isinstance(err, ArithmeticError):
+                            if isinstance(value, dt.AbstractDateTime):
+                                code = 'FODT0001'
+                            elif isinstance(value, dt.Duration):
+                                code = 'FODT0002'
+                            else:
+                                code = 'FOCA0002'
+                else:
+                    yield result
+                    error = None
+                    break
+            else:
+                assert error is not None
+                raise xpath_error(code, error, namespaces=namespaces)
 
 
 __all__ = ['get_atomic_sequence']
